@@ -496,6 +496,9 @@ func runConcMode(s *concSpec, r *rand.Rand, prefixOnly bool) (out []labelObs, en
 		<-gr
 	}
 	c.grp = buildGroup(g, h)
+	if h.apiNote != "" {
+		c.anomaly(label{Kind: "stop"}, h.apiNote)
+	}
 	do := func(l label) {
 		switch l.Kind {
 		case "call":
@@ -932,7 +935,7 @@ func genConc(r *rand.Rand, focus string) *concSpec {
 // key; the same goroutine then goes on to its next Get (another key, same or another worker; possibly abandoned as
 // well); a barrier per abandoned job makes its end observable.  Everything else is scheduled at random.
 func genAbandon(r *rand.Rand) *concSpec {
-	g := grpSpec{Wrapped: true, N: []int{1, 2, 2, 3}[r.Intn(4)], Cap: []int{-1, -1, 2, 100}[r.Intn(4)], Kind: []int{kInt, kInt64, kInt64CRC, kString}[r.Intn(4)]}
+	g := grpSpec{Wrapped: true, N: []int{1, 2, 2, 3}[r.Intn(4)], Cap: []int{-1, -1, 2, 100}[r.Intn(4)], Kind: r.Intn(nKinds)}
 	nk := 3 + r.Intn(3)
 	for len(g.Univ) < nk {
 		k := int64(r.Intn(30))
